@@ -656,6 +656,60 @@ _secrets_facade = types.ModuleType('secrets')
 _secrets_facade.__dict__.update(vars(_secrets_mod))
 _secrets_facade.compare_digest = _compare_digest  # type: ignore
 
+
+import zlib as _zlib_mod
+
+
+def _adler32(data: Any, value: Any = 1) -> Any:
+    """zlib.adler32 over symbolic bytes: a = 1 + sum(bytes), b = sum of the
+    running a, both mod 65521; returns b * 65536 + a"""
+    if not is_sym(data) and not is_sym(value):
+        return _zlib_mod.adler32(data, value)
+    from .codecs7 import _divmod
+    items = data.items if is_sym(data) else list(_real_bytes(data))
+    if is_sym(value) or value != 1:
+        b, a = _divmod(value, 65536)[:2] if is_sym(value) else (value >> 16, value & 0xffff)
+    else:
+        a, b = 1, 0
+    # upper bounds decide where a reduction mod 65521 can change anything
+    amax = 65520 if is_sym(a) else a
+    bmax = 65520 if is_sym(b) else b
+
+    def red(x: Any) -> Any:
+        return _divmod(x, 65521)[1] if is_sym(x) else x % 65521
+    for c in items:
+        a = a + c
+        amax += 255
+        if amax >= 65521:
+            a = red(a)
+            amax = 65520
+        b = b + a
+        bmax += amax
+        if bmax >= 65521:
+            b = red(b)
+            bmax = 65520
+    return b * 65536 + a
+
+
+_zlib_facade = types.ModuleType('zlib')
+_zlib_facade.__dict__.update(vars(_zlib_mod))
+_zlib_facade.adler32 = _adler32  # type: ignore
+
+
+import codecs as _codecs_mod
+
+
+def _codecs_lookup(name: Any) -> Any:
+    if isinstance(name, SymStr):
+        from .symbytes import concretize_codec
+        return _codecs_mod.lookup(concretize_codec(name))
+    return _codecs_mod.lookup(name)
+
+
+_codecs_facade = types.ModuleType('codecs')
+_codecs_facade.__dict__.update(vars(_codecs_mod))
+_codecs_facade.lookup = _codecs_lookup  # type: ignore
+
 def _import(name: str, globals: Any = None, locals: Any = None,
             fromlist: Any = (), level: int = 0) -> Any:
     if level == 0:
@@ -671,6 +725,10 @@ def _import(name: str, globals: Any = None, locals: Any = None,
             return _datetime_facade
         if name == 'secrets':
             return _secrets_facade
+        if name == 'zlib':
+            return _zlib_facade
+        if name == 'codecs':
+            return _codecs_facade
     return builtins.__import__(name, globals, locals, fromlist, level)
 
 
